@@ -50,7 +50,7 @@ static rdesc pick(rng& g)
     r.e4 = es[g.below(7)];
     int v = (int) g.below(4);
     r.vn = vs[v][0]; r.vd = vs[v][1];
-    if (r.nz == 0) { r.e4 = 0; }
+    if (r.nz == 0) { r.e4 = 0; r.vn = 0; r.vd = 1; } // a result without information is genuinely empty: sum = sumsq = 0
     return r;
 }
 
